@@ -44,6 +44,24 @@ pub struct HistPlan {
     pub bound_exps: Vec<u8>,
     pub container: Container,
     pub threads: Vec<Vec<HOp>>,
+    /// every observed value and every bound is negated (-(2^k)): sums run negative
+    #[serde(default)]
+    pub negate: bool,
+}
+fn bounds_of(plan: &HistPlan) -> Vec<f64> {
+    let mut b: Vec<f64> = plan.bound_exps.iter().map(|e| (1u64 << e) as f64).collect();
+    if plan.negate {
+        b = b.into_iter().rev().map(|x| -x).collect();
+    }
+    b
+}
+fn val_of(neg: bool, k: u8) -> f64 {
+    let v = (1u64 << k) as f64;
+    if neg {
+        -v
+    } else {
+        v
+    }
 }
 
 #[derive(Clone, Debug)]
@@ -56,7 +74,8 @@ pub enum HRes {
 
 fn gen_plan(seed: u64, long: bool) -> HistPlan {
     let mut r = Rng::new(seed, 1);
-    let nb = 1 + r.below(4) as usize;
+    // mostly 1-4 bounds; sometimes more than 16 (implementations may switch search strategy with size)
+    let nb = if r.chance(12) { 17 + r.below(16) as usize } else { 1 + r.below(4) as usize };
     let mut exps: Vec<u8> = (0..nb).map(|_| r.below(40) as u8).collect();
     exps.sort();
     exps.dedup();
@@ -147,17 +166,20 @@ fn gen_plan(seed: u64, long: bool) -> HistPlan {
         let at = r.below((threads[t].len() as u64) * 5 + 1) as u32;
         env.stall = Some(Stall { thread: t, at, len: 30 + r.below(60) as u32 });
     }
-    HistPlan { env, bound_exps: exps, container, threads }
+    let negate = r.chance(15);
+    HistPlan { env, bound_exps: exps, container, threads, negate }
 }
 
 struct Objects {
+    neg: bool,
     h: Histogram,
     hv: Option<HistogramVec>,
     reg: Option<Registry>,
 }
 
 fn build(plan: &HistPlan) -> Objects {
-    let bounds: Vec<f64> = plan.bound_exps.iter().map(|e| (1u64 << e) as f64).collect();
+    let bounds = bounds_of(plan);
+    let neg = plan.negate;
     let opts = HistogramOpts::new("c02_hist", "histogram under test").buckets(bounds);
     match plan.container {
         Container::Plain | Container::PlainRegistry => {
@@ -169,7 +191,7 @@ fn build(plan: &HistPlan) -> Objects {
             } else {
                 None
             };
-            Objects { h, hv: None, reg }
+            Objects { neg, h, hv: None, reg }
         }
         _ => {
             let hv = HistogramVec::new(opts, &["l"]).unwrap();
@@ -181,7 +203,7 @@ fn build(plan: &HistPlan) -> Objects {
             } else {
                 None
             };
-            Objects { h, hv: Some(hv), reg }
+            Objects { neg, h, hv: Some(hv), reg }
         }
     }
 }
@@ -202,13 +224,13 @@ fn snapshot(o: &Objects, via: &Via) -> PHist {
 fn exec_op(o: &Objects, op: &HOp) -> HRes {
     match op {
         HOp::Observe(k) => {
-            o.h.observe((1u64 << k) as f64);
+            o.h.observe(val_of(o.neg, *k));
             HRes::None
         }
         HOp::LocalBatch { ks, explicit } => {
             let l = o.h.local();
             for k in ks {
-                l.observe((1u64 << k) as f64);
+                l.observe(val_of(o.neg, *k));
             }
             if *explicit {
                 l.flush();
@@ -292,7 +314,9 @@ fn execute(prop: &'static str, plan: &HistPlan, mode: Mode) -> RunOut {
         }
     }
     let all_bits: u64 = obs.iter().fold(0, |a, o| a | o.bits);
-    let bounds: Vec<f64> = plan.bound_exps.iter().map(|e| (1u64 << e) as f64).collect();
+    let bounds = bounds_of(plan);
+    let neg = plan.negate;
+    let unsign = |x: f64| if neg { -x } else { x };
     let mut sets: Vec<(u32, usize, usize, u64)> = vec![];
     let (final_snap, final_count, final_sum) = match finals.lock().unwrap().clone() {
         Some(x) => x,
@@ -307,7 +331,7 @@ fn execute(prop: &'static str, plan: &HistPlan, mode: Mode) -> RunOut {
     for (id, inv, ret, s) in &all_snaps {
         let name = if *id == u32::MAX { "snapshot after quiescence".to_string() } else { format!("collect op {}", id) };
         // --- one consistent cut
-        let set = match f2u(s.sum) {
+        let set = match f2u(unsign(s.sum)) {
             Some(u) if u & !all_bits == 0 => u,
             _ => {
                 out.violations.push(Violation::new(&cls("cut"), cls("cut"), format!("{}: sample_sum {} is not the sum of a set of issued observations", name, s.sum)));
@@ -321,7 +345,7 @@ fn execute(prop: &'static str, plan: &HistPlan, mode: Mode) -> RunOut {
             out.violations.push(Violation::new(&cls("cut"), cls("cut"), format!("{}: bucket bounds {:?} differ from the configured {:?}", name, s.buckets, bounds)));
         } else {
             for (ub, cc) in &s.buckets {
-                let want = (0..64).filter(|k| set & (1u64 << k) != 0 && ((1u64 << k) as f64) <= *ub).count() as u64;
+                let want = (0..64).filter(|k| set & (1u64 << k) != 0 && val_of(neg, *k as u8) <= *ub).count() as u64;
                 if *cc != want {
                     out.violations.push(Violation::new(&cls("cut"), cls("cut"), format!("{}: bucket le={} has cumulative count {} but {} of the observations in the sum are <= that bound", name, ub, cc, want)));
                 }
@@ -387,7 +411,7 @@ fn execute(prop: &'static str, plan: &HistPlan, mode: Mode) -> RunOut {
                     out.violations.push(Violation::new(&cls("getters"), cls("getters"), format!("get_sample_count op {} = {} but {} observations had completed before it and only {} had started when it returned", id, c, completed, started)));
                 }
             }
-            HRes::Sum(s) => match f2u(*s) {
+            HRes::Sum(s) => match f2u(unsign(*s)) {
                 Some(u) if u & !all_bits == 0 => {
                     for ob in &obs {
                         if u & ob.bits != 0 && ob.inv > *ret {
